@@ -127,7 +127,7 @@ pub fn execute(c: &SerCase) -> LegReport {
                         continue;
                     }
                     let name = if honour_fields { "map presented by a format that honours the fields hint" } else { name };
-                    match run_twofloat(&entries, &Delivery { honour_fields, ..Delivery::clean(mode) }) {
+                    match run_twofloat(&entries, &Delivery { honour_fields, human_readable: c.human_readable, ..Delivery::clean(mode) }) {
                         Err(msg) => rep.violations.push(viol("PANIC", format!("deserialize ({name}) panicked: {msg}"))),
                         Ok(DeOutcome { result: Ok((h, l)), .. }) => {
                             if h != c.hi || l != c.lo {
@@ -157,6 +157,34 @@ pub fn execute(c: &SerCase) -> LegReport {
                     }
                   }
                 }
+            }
+        }
+    }
+
+    // S-rt through serde's own value deserializers (further real implementations of the seam)
+    if r0.is_ok() && shape_ok {
+        use serde::de::value::{Error as VErr, MapDeserializer, SeqDeserializer};
+        use serde::Deserialize;
+        let (h, l) = (f64::from_bits(c.hi), f64::from_bits(c.lo));
+        let same = |t: &twofloat::TwoFloat| t.hi().to_bits() == c.hi && t.lo().to_bits() == c.lo;
+        let results: Vec<(&str, Result<Result<twofloat::TwoFloat, VErr>, String>)> = vec![
+            ("MapDeserializer(&str keys)", guarded(|| twofloat::TwoFloat::deserialize(MapDeserializer::<_, VErr>::new(vec![("hi", h), ("lo", l)].into_iter())))),
+            ("MapDeserializer(&str keys, lo first)", guarded(|| twofloat::TwoFloat::deserialize(MapDeserializer::<_, VErr>::new(vec![("lo", l), ("hi", h)].into_iter())))),
+            (
+                "MapDeserializer(String keys)",
+                guarded(|| twofloat::TwoFloat::deserialize(MapDeserializer::<_, VErr>::new(vec![("lo".to_string(), l), ("hi".to_string(), h)].into_iter()))),
+            ),
+            ("SeqDeserializer", guarded(|| twofloat::TwoFloat::deserialize(SeqDeserializer::<_, VErr>::new(vec![h, l].into_iter())))),
+        ];
+        for (name, r) in results {
+            match r {
+                Err(msg) => rep.violations.push(viol("PANIC", format!("deserialize from serde::de::value::{name} panicked: {msg}"))),
+                Ok(Ok(t)) if same(&t) => rep.probes.hit("rt_serde_value_deserializers_ok"),
+                Ok(Ok(t)) => rep.violations.push(viol(
+                    "RT_MISMATCH",
+                    format!("round trip via serde::de::value::{name} gave ({}, {})", values::hex(t.hi().to_bits()), values::hex(t.lo().to_bits())),
+                )),
+                Ok(Err(e)) => rep.violations.push(viol("RT_REJECTED_VALID", format!("round trip via serde::de::value::{name} rejected: {e}"))),
             }
         }
     }
